@@ -32,9 +32,9 @@ LEAN_MODULES = {
     "C03": ["TFV.Properties.EA", "TFV.Properties.Src.Engine", "TFV.Properties.Src.Skeleton"],
     "C04": ["TFV.Properties.Rng"],
     "C05": ["TFV.Properties.EA", "TFV.Properties.Src.Engine"],
-    "C06": ["TFV.Properties.BinOps", "TFV.Properties.Runs", "TFV.Properties.Src.BinKernels", "TFV.Properties.Src.BinKernels2"],
-    "C07": ["TFV.Properties.DE", "TFV.Properties.Runs", "TFV.Properties.Src.BoundsControl", "TFV.Properties.Src.Binomial", "TFV.Properties.Src.Donors"],
-    "C08": ["TFV.Properties.Tree", "TFV.Properties.TreeCR", "TFV.Properties.Runs", "TFV.Properties.Src.Levels", "TFV.Properties.Src.Shrink", "TFV.Properties.Src.StandardX", "TFV.Properties.Src.OnePointGP", "TFV.Properties.Src.GrowMut", "TFV.Properties.Src.PointMut", "TFV.Properties.Src.Swap", "TFV.Properties.Src.Grow"],
+    "C06": ["TFV.Properties.BinOps", "TFV.Properties.Runs", "TFV.Properties.Src.BinKernels", "TFV.Properties.Src.BinKernels2", "TFV.Properties.Src.GATrial"],
+    "C07": ["TFV.Properties.DE", "TFV.Properties.Runs", "TFV.Properties.Src.BoundsControl", "TFV.Properties.Src.Binomial", "TFV.Properties.Src.Donors", "TFV.Properties.Src.DETrial"],
+    "C08": ["TFV.Properties.Tree", "TFV.Properties.TreeCR", "TFV.Properties.Runs", "TFV.Properties.Src.Levels", "TFV.Properties.Src.Shrink", "TFV.Properties.Src.StandardX", "TFV.Properties.Src.OnePointGP", "TFV.Properties.Src.GrowMut", "TFV.Properties.Src.PointMut", "TFV.Properties.Src.Swap", "TFV.Properties.Src.Grow", "TFV.Properties.Src.GPTrial"],
     "C09": ["TFV.Properties.Tree", "TFV.Properties.TreeCR", "TFV.Properties.Src.TreeIdx", "TFV.Properties.Src.CommonRegion", "TFV.Properties.Src.TreeMethods",
             "TFV.Properties.Src.StandardX", "TFV.Properties.Src.OnePointGP"],
     "C10": ["TFV.Properties.Gray"],
@@ -58,14 +58,14 @@ SRC_KERNELS = {
     "C03": ["TheFittest_replace", "TheFittest_update", "termination_check", "get_remains_calls", "EA_fit", "EA_get_fitness"],
     "C05": ["TheFittest_replace", "TheFittest_update", "termination_check", "get_remains_calls", "EA_get_fitness"],
     "C06": ["flip_mutation", "binomialGA", "one_point_crossover", "two_point_crossover", "uniform_crossover",
-            "uniform_proportional_crossover", "uniform_rank_crossover", "empty_crossover",
+            "uniform_proportional_crossover", "uniform_rank_crossover", "empty_crossover", "GA_get_new_individ_g",
             "random_sample", "check_for_value", "sattolo_shuffle", "random_weighted_sample", "binary_search_interval"],
     "C07": ["bounds_control", "binomial", "best_1", "rand_1", "rand_to_best1", "current_to_best_1", "best_2", "rand_2",
-            "current_to_pbest_1_archive", "random_sample", "check_for_value", "sattolo_shuffle", "random_weighted_sample", "binary_search_interval"],
+            "current_to_pbest_1_archive", "DE_get_new_individ_g", "SHADE_get_new_individ_g", "random_sample", "check_for_value", "sattolo_shuffle", "random_weighted_sample", "binary_search_interval"],
     "C08": ["get_levels_tree_from_i", "find_end_subtree_from_i", "find_id_args_from_i", "Tree_subtree_id", "Tree_subtree", "Tree_concat", "shrink_mutation",
             "Tree_get_levels", "Tree_get_max_level", "standard_crossover",
             "find_first_difference_between_two", "common_region_two_trees", "Tree_get_common_region", "one_point_crossoverGP", "growing_mutation", "Tree_get_args_id", "point_mutation", "swap_mutation",
-            "Tree_full_growing_method", "Tree_growing_method"],
+            "Tree_full_growing_method", "Tree_growing_method", "GP_get_new_individ_g"],
     "C09": ["find_end_subtree_from_i", "find_id_args_from_i", "find_first_difference_between_two", "common_region_two_trees",
             "Tree_subtree_id", "Tree_subtree", "Tree_concat", "get_levels_tree_from_i", "Tree_get_levels", "Tree_get_max_level",
             "standard_crossover", "Tree_get_common_region", "one_point_crossoverGP"],
